@@ -1740,10 +1740,30 @@ def scan_assumptions(text):
     return res
 
 
-def assemble(unit_name, outdir, repo=REPO):
+def assemble(unit_name, outdir, repo=REPO, extra_consts=()):
     vc = os.path.join(VERIF, "contracts", unit_name + ".vc")
     u = parse_vc(vc)
-    a = Assembler(u, repo).run()
+    # R22: constants the code under contract refers to but the unit does not list (a constant introduced by a later change of the
+    # code) are extracted automatically from the unit's source files.  A `const` is its definition: nothing is assumed or dropped.
+    # (Functions are NOT pulled in this way: a function without contract tells its caller nothing.)
+    pulled = []
+    if extra_consts:
+        probe = Assembler(u, repo)
+        for name in extra_consts:
+            for alias in u.sources:
+                try:
+                    src = probe.src(alias)
+                except Exception:
+                    continue
+                kind = "const" if src.find_top("const", name) else ("static" if src.find_top("static", name) else None)
+                if kind:
+                    u.seq.insert(0, dict(kind="item", ikind=kind, src=alias, name=name, opts=[], line=0, new=None))
+                    pulled.append((name, alias))
+                    break
+    a = Assembler(u, repo)
+    for name, alias in pulled:
+        a.log.append(("R22", name, "constant extracted automatically from source '%s' (not listed in the contract file)" % alias))
+    a = a.run()
     text, linemap = a.render()
     os.makedirs(outdir, exist_ok=True)
     rs = os.path.join(outdir, u.name + ".rs")
